@@ -150,6 +150,18 @@ def t1_rewrite(src, model='crate::vcoll', what='file'):
     return src
 
 
+def t1_vec_rewrite(src, what):
+    """T1v: additionally redirect `Vec`/`vec!` of one file to the fixed-capacity Vec model (line numbers preserved)."""
+    m = re.search(r'^use [^\n]*;[ \t]*$', src, flags=re.M)
+    if not m:
+        raise Inconclusive('T1v: no use line to attach the Vec redirection to in %s' % what)
+    src = src[:m.end()] + ' use crate::vcoll::vecmodel::Vec;' + src[m.end():]
+    src = re.sub(r'(?<![\w:])vec!\[', 'crate::vvec![', src)
+    if re.search(r'\bstd::vec::Vec\b|\balloc::vec::Vec\b', src):
+        raise Inconclusive('T1v: fully qualified Vec path in %s' % what)
+    return src
+
+
 def strip_tests_mod(src):
     """Remove a trailing `#[cfg(test)] mod tests { ... }` (keeps harness builds small). Not required for soundness."""
     return src
@@ -238,10 +250,22 @@ def gen_scratch(prop, job, dest, t1=True, extra_tests=None, cap=None, release=Fa
     cap = cap or job.get('cap', 3)
     vcoll = read(os.path.join(VERIF, 'model', 'vcoll.rs'))
     vcoll = re.sub(r'pub const CAP: usize = \d+;', 'pub const CAP: usize = %d;' % cap, vcoll, count=1)
+    vcoll = re.sub(r'pub const VCAP: usize = \d+;', 'pub const VCAP: usize = %d;' % job.get('vcap', 8), vcoll, count=1)
     extra_tests = extra_tests or {}
     files_used = []
 
-    def wrap(body, modname, tests):
+    if t1:
+        vkmod = 'mod vk { pub use %s::vcoll::helpers::*; }\n'
+    else:
+        std_h = read(os.path.join(VERIF, 'model', 'std_helpers.rs'))
+        std_h = re.sub(r'pub const CAP: usize = \d+;', 'pub const CAP: usize = %d;' % cap, std_h, count=1)
+        vkmod = 'mod vk {\n' + std_h + '}\n'
+
+    def wrap(body, modname, tests, owner='crate'):
+        if not t1:
+            body = vkmod + body
+        elif owner:
+            body = (vkmod % owner) + body
         return ('\n#[cfg(kani)]\n#[allow(unused_imports, dead_code, unused_variables, unused_mut)]\nmod %s {\n%s\n%s\n}\n' % (modname, body, tests or ''))
 
     if job.get('shared_roots') is not None:
@@ -255,10 +279,12 @@ def gen_scratch(prop, job, dest, t1=True, extra_tests=None, cap=None, release=Fa
             files_used.append('shared/src/%s.rs' % m)
             if t1s:
                 s = t1_rewrite(s, 'crate::vcoll', 'shared/src/%s.rs' % m)
+            if t1s and m in job.get('t1_vec', []):
+                s = t1_vec_rewrite(s, 'shared/src/%s.rs' % m)
             inj = job.get('inject')
             if inj and inj['into'] == m:
                 body = read(os.path.join(hdir, inj['file']))
-                s += wrap('use super::*;\n' + body, '__verif', extra_tests.get(inj['file']))
+                s += wrap('use super::*;\n' + body, '__verif', extra_tests.get(inj['file']), 'crate' if t1s else None)
             write(os.path.join(dest, 'shared', 'src', m + '.rs'), s)
             libtxt += 'pub mod %s;\n' % m
         if t1s:
@@ -286,7 +312,7 @@ def gen_scratch(prop, job, dest, t1=True, extra_tests=None, cap=None, release=Fa
             inj = sl.get('inject')
             if inj:
                 body = read(os.path.join(hdir, inj))
-                s += wrap('use super::*;\n' + body, '__verif', extra_tests.get(inj))
+                s += wrap('use super::*;\n' + body, '__verif', extra_tests.get(inj), 'crate' if (t1 and sl.get('t1', True)) else None)
             if sl.get('under'):
                 write(os.path.join(dest, 'hx', 'src', sl['under'], sl['as'] + '.rs'), s)
                 under.setdefault(sl['under'], []).append(sl['as'])
@@ -308,7 +334,7 @@ def gen_scratch(prop, job, dest, t1=True, extra_tests=None, cap=None, release=Fa
         for hf in hx.get('files', []):
             body = read(os.path.join(hdir, hf))
             stem = os.path.splitext(hf)[0]
-            lib += wrap('use super::*;\n' + body, 'p_' + stem, extra_tests.get(hf))
+            lib += wrap('use super::*;\n' + body, 'p_' + stem, extra_tests.get(hf), 'shared' if (job.get('shared_roots') is not None and t1 and job.get('t1_shared', True)) else ('crate' if need_vcoll else None))
         write(os.path.join(dest, 'hx', 'src', 'lib.rs'), lib)
         deps = '\n'.join(HX_DEPS[d] for d in hx.get('deps', []))
         write(os.path.join(dest, 'hx', 'Cargo.toml'),
@@ -375,6 +401,8 @@ def kani_cmd(job, harness_names, dest, playback=False):
     flags = list(job.get('flags', []))
     if playback:
         flags += ['-Z', 'concrete-playback', '--concrete-playback=print']
+        if '--no-assertion-reach-checks' not in flags:
+            flags.append('--no-assertion-reach-checks')
     cmd += flags
     return cmd
 
@@ -435,7 +463,9 @@ def classify(r, h):
     """-> (kind, detail) with kind in ok|violation_candidate|inconclusive"""
     if r is None or r['verdict'] is None:
         return 'inconclusive', 'no verdict (timeout, out of memory, crash or build failure)'
-    unwind = [c for c in r['failed'] if 'unwinding assertion' in c['desc'] or '.unwind.' in c['id'] or '.recursion' in c['id']]
+    if any(c['status'] == 'ERROR' for c in r['failed']):
+        return 'inconclusive', 'CBMC reported Status: ERROR (solver failure, usually the memory cap)'
+    unwind = [c for c in r['failed'] if c['status'] == 'FAILURE' and ('unwinding assertion' in c['desc'] or '.unwind.' in c['id'] or '.recursion' in c['id'])]
     if unwind:
         return 'inconclusive', 'unwinding assertion failed: bound too small for the current code (%s)' % unwind[0]['loc']
     allowed = h.get('allowed_failures', [])
@@ -514,7 +544,7 @@ def select(plan, tier, only, seed):
     return jobs
 
 
-def run_job(prop, job, hs, root, idx, results, tier, keep):
+def run_job(prop, job, hs, root, idx, results, tier, keep, sem):
     tag = '%s.%d' % (job['name'], idx)
     dest = os.path.join(root, tag)
     os.makedirs(dest)
@@ -525,13 +555,16 @@ def run_job(prop, job, hs, root, idx, results, tier, keep):
     if tier == 'thorough':
         mem = max(mem, max(h.get('mem_gb_thorough', 0) for h in hs))
     timeout = sum(h.get('timeout', 300) for h in hs) + 240
+    # the checked program is materialised from /repo (and /verif) NOW, before waiting for a memory slot,
+    # so that all jobs of one invocation see the same sources
+    try:
+        out['files'] = gen_scratch(prop, job, dest, t1=True)
+    except Inconclusive as e:
+        out['detail'] = str(e)
+        return
+    sem.acquire()
     key = budget_acquire(tag, mem)
     try:
-        try:
-            out['files'] = gen_scratch(prop, job, dest, t1=True)
-        except Inconclusive as e:
-            out['detail'] = str(e)
-            return
         seed_target(dest)
         logp = os.path.join(dest, 'kani.log')
         cmd = kani_cmd(job, names, dest)
@@ -576,6 +609,7 @@ def run_job(prop, job, hs, root, idx, results, tier, keep):
             shutil.copy(logp, os.path.join(VERIF, 'evidence', 'logs', '%s-%s.log' % (prop, tag)))
     finally:
         budget_release(key)
+        sem.release()
         if not keep:
             shutil.rmtree(dest, ignore_errors=True)
 
@@ -584,7 +618,7 @@ def playback_extract(prop, job, h, root):
     """Second run of a failed harness with concrete playback on; returns rust test text or None."""
     dest = os.path.join(root, 'pb.' + h['name'])
     os.makedirs(dest)
-    mem = max(h.get('mem_gb', 8) * 2, 24)
+    mem = min(max(h.get('mem_gb', 8) * 3, 24), 48)
     key = budget_acquire('pb.' + h['name'], mem)
     try:
         gen_scratch(prop, job, dest, t1=True)
@@ -669,9 +703,9 @@ def cmd_check(prop, tier, only, keep, seed):
     sem = threading.Semaphore(MAX_PAR)
 
     def worker(job, hs, i):
-        with sem:
+        if True:
             try:
-                run_job(prop, job, hs, root, i, results, tier, keep)
+                run_job(prop, job, hs, root, i, results, tier, keep, sem)
             except Exception as e:  # never let a crash look like success
                 results.append({'job': job['name'], 'harnesses': [h['name'] for h in hs], 'status': 'inconclusive',
                                 'detail': 'driver error: %r' % (e,), 'per_harness': {}, 'files': []})
@@ -871,8 +905,48 @@ def cmd_setup():
         log(txt[-3000:])
         return 1
     shutil.rmtree(root, ignore_errors=True)
+    rc = cmd_selftest_model()
+    if rc != 0:
+        log('[vk] setup: container-model self-test failed')
+        return 1
     log('[vk] setup done in %.0fs' % (time.time() - t0))
     return 0
+
+
+# ------------------------------------------------------------------ model self-test (Serval-style)
+def cmd_selftest_model(cap=24):
+    """Run shared's own unit tests natively with T1 applied: every test must pass or stop at the model's
+    capacity panic; a wrong ANSWER is a model bug."""
+    root = mkscratch('selftest')
+    ssrc = os.path.join(REPO, 'shared', 'src')
+    mods = sorted(f[:-3] for f in os.listdir(ssrc) if f.endswith('.rs') and f != 'lib.rs')
+    job = {'name': 'selftest', 'shared_roots': mods, 't1_shared': True, 'cap': cap}
+    try:
+        gen_scratch('_setup', job, root, t1=True)
+    except Inconclusive as e:
+        log('[vk] selftest-model: %s' % e)
+        return 2
+    env = base_env()
+    env['RUST_MIN_STACK'] = str(64 * 1024 * 1024)
+    r = subprocess.run(['cargo', 'test', '--offline', '-p', 'shared', '--lib', '--', '--test-threads', '8'], cwd=root, env=env,
+                       stdout=subprocess.PIPE, stderr=subprocess.STDOUT, text=True)
+    out = r.stdout
+    ok = re.findall(r'^test (\S+) \.\.\. ok', out, re.M)
+    failed = re.findall(r'^test (\S+) \.\.\. FAILED', out, re.M)
+    wrong = []
+    for f in failed:
+        m = re.search(r"---- %s stdout ----(.*?)(?=\n---- |\nfailures:)" % re.escape(f), out, re.S)
+        txt = m.group(1) if m else ''
+        if 'vcoll capacity exceeded' not in txt:
+            wrong.append((f, txt.strip()[-300:]))
+    log('[vk] selftest-model (CAP %d): %d pass, %d stop at the capacity panic, %d WRONG' % (cap, len(ok), len(failed) - len(wrong), len(wrong)))
+    for f, t in wrong:
+        log('   WRONG %s: %s' % (f, t))
+    if not ok and not failed:
+        log(out[-3000:])
+        return 2
+    shutil.rmtree(root, ignore_errors=True)
+    return 1 if wrong else 0
 
 
 def main(argv):
@@ -902,5 +976,7 @@ def main(argv):
         return cmd_check(prop, tier, only, keep, seed)
     if argv[0] == 'replay':
         return cmd_replay(argv[1])
+    if argv[0] == 'selftest-model':
+        return cmd_selftest_model(int(argv[1]) if len(argv) > 1 else 24)
     print('usage: vk setup | check <ID> [--tier quick|thorough] [--only name] | replay <file>')
     return 2
